@@ -178,6 +178,22 @@ fn resupply_family(n: usize) -> Result<(), String> {
     Ok(())
 }
 
+fn big_keep(label: &str) -> bool {
+    label.starts_with("chain of depth") || label.starts_with("n=") || label.starts_with("threshold")
+}
+
+/// documents in the given order, every document a second time, and in reverse: always the inference from their union
+fn big_oracle(docs: &[&crate::model::Node], bytes: &[Vec<u8>]) -> Result<bool, String> {
+    let n = docs.len();
+    let orders: [(&str, Vec<usize>); 3] = [("as given", (0..n).collect()), ("every document twice", (0..n).chain(0..n).collect()), ("reversed", (0..n).rev().collect())];
+    for (what, order) in orders {
+        let d: Vec<&crate::model::Node> = order.iter().map(|i| docs[*i]).collect();
+        let b: Vec<Vec<u8>> = order.iter().map(|i| bytes[*i].clone()).collect();
+        crate::props::c03::small_oracle(&d, &b).map_err(|e| format!("documents supplied {}: {}", what, e))?;
+    }
+    Ok(true)
+}
+
 impl Property for C06 {
     fn id(&self) -> &'static str {
         "C06"
@@ -356,16 +372,30 @@ impl Property for C06 {
                 return Err((Failure::new(format!("re-supply family n={}: {}", n, e)), json!({"resupply_n": n})));
             }
         }
+        // the enumerated families around plausible limits (deep chains, wide elements), each in three orders
+        {
+            let (n, fail) = super::smallscope::run_big_families_where(big_keep, big_oracle);
+            st.evaluations += 3 * n;
+            st.nontrivial_enumerated += 3 * n;
+            st.add("big_families", n);
+            if let Some((label, e, docs)) = fail {
+                let first = e.lines().next().unwrap_or("").to_string();
+                return Err((Failure::new(format!("family `{}`: {}", label, first)).with_detail(json!({"documents": docs, "message": e})), json!({"big_family": label})));
+            }
+        }
         Ok(())
     }
     fn replay_custom(&self, payload: &Value) -> Result<(), Failure> {
+        if let Some(l) = payload["big_family"].as_str() {
+            return super::smallscope::replay_big_family(l, big_oracle).map_err(Failure::new);
+        }
         match payload["resupply_n"].as_u64() {
             Some(n) => resupply_family(n as usize).map_err(|e| Failure::new(format!("re-supply family n={}: {}", n, e))),
             None => Err(Failure::new("unknown replay payload")),
         }
     }
     fn rule(&self) -> String {
-        "tape-decoded histories parse(D1), extend(...) over 1..5 generated documents with members supplied again, element-less inputs interleaved (empty, blanks, comment-only, declaration-only, text-only), a random permutation of the members, and (one history in three) a damaged member at the end. After every step the schema abstraction of the rendering (fields, optionality, multiplicity, text flags, nesting; order/identifiers/struct names ignored) must equal the reference inference over the union of the documents supplied so far and be monotone w.r.t. the previous step; the permuted history must end in the same schema; a tail on which an independent reader pass finds an error must yield Err. A second, tree-level part uses pools in which sibling names may differ only in their namespace prefix (link / atom:link): forward, reversed and first-document-again orders must return the element tree inferred from the union (full XML names, optionality, multiplicity, text). A re-supply family adds large single documents (an element seen n times in total, n around 256 and 65536; thorough also 128, 1024, 32768, 131073) supplied, supplied again, followed by an element-less input and a third supply. Non-trivial = k >= 2 and the later documents change the schema below the root; distinct by hash of documents and permutation.".into()
+        "tape-decoded histories parse(D1), extend(...) over 1..5 generated documents with members supplied again, element-less inputs interleaved (empty, blanks, comment-only, declaration-only, text-only), a random permutation of the members, and (one history in three) a damaged member at the end. After every step the schema abstraction of the rendering (fields, optionality, multiplicity, text flags, nesting; order/identifiers/struct names ignored) must equal the reference inference over the union of the documents supplied so far and be monotone w.r.t. the previous step; the permuted history must end in the same schema; a tail on which an independent reader pass finds an error must yield Err. A second, tree-level part uses pools in which sibling names may differ only in their namespace prefix (link / atom:link): forward, reversed and first-document-again orders must return the element tree inferred from the union (full XML names, optionality, multiplicity, text). The enumerated families of deep chains and wide elements (sizes around 16..300) are supplied as given, with every document a second time, and reversed. A re-supply family adds large single documents (an element seen n times in total, n around 256 and 65536; thorough also 128, 1024, 32768, 131073) supplied, supplied again, followed by an element-less input and a third supply. Non-trivial = k >= 2 and the later documents change the schema below the root; distinct by hash of documents and permutation.".into()
     }
     fn assumptions(&self) -> Vec<String> {
         vec![
